@@ -8,7 +8,7 @@ From SudachiVerif Require Import Model.Rewrite Proofs.RewriteProofs.
 Import ListNotations.
 
 (* [grouping A p q]: q is p with consecutive NON-EMPTY groups replaced by one node each; a replaced group's node covers
-   the union of the ranges (begin of the first, end of the last), its dictionary-side surface is the concatenation, its
+   the union of the code-point ranges and of the reported byte ranges (begin of the first, end of the last), its dictionary-side surface is the concatenation, its
    part of speech is one of A; every other node of q IS the node of p (unchanged in every field).  A single numeral that
    JoinNumeric re-normalises is a one-element group (DESIGN section 6). *)
 Theorem C14_rewrite_is_grouping :
@@ -19,7 +19,7 @@ Print Assumptions C14_rewrite_is_grouping.
 (* token boundaries with the plugins are a subset of the boundaries without them *)
 Theorem C14_boundaries_subset :
   forall pls p q m, run_plugins pls p = Some (Ok q) -> In m q ->
-  (exists n, In n p /\ nb n = nb m) /\ (exists n, In n p /\ ne n = ne m).
+  (exists n, In n p /\ nb n = nb m /\ bb n = bb m) /\ (exists n, In n p /\ ne n = ne m /\ be n = be m).
 Proof. exact rewrite_boundaries_subset. Qed.
 Print Assumptions C14_boundaries_subset.
 
